@@ -291,10 +291,13 @@ func (m *Machine) callVx(fn *ssa.Function, a []Value) Value {
 			m.race = nil
 		}
 		return nil
-	case "vxRaceAnalyse":
+	case "vxRaceAnalyse", "vxRaceAnalyseAll":
+		m.raceAll = fn.Name() == "vxRaceAnalyseAll" // also pairs inside harness code (self-tests)
 		reps, st, probs := m.AnalyseRaces("z3-new", m.CrossStatsOrNew())
-		m.RaceReports = append(m.RaceReports, reps...)
-		m.RaceStats = st
+		if !m.raceAll {
+			m.RaceReports = append(m.RaceReports, reps...)
+			m.RaceStats = st
+		}
 		m.inconclusive = append(m.inconclusive, probs...)
 		m.race = nil
 		return int64(len(reps))
